@@ -171,4 +171,77 @@ TA_INIT = dict(
     ],
     cover=["return"],
 )
-ALLOC_CONTRACTS = [CLIENTS, ALLOCATIONS, TA_INIT]
+# ------------------------------------------------------------------------------------------------ Driver.start_benchmark: every worker gets exactly the rows of ITS clients
+WA = "list[rec{host:str,workers:list[list[int]]}]"
+CA_ENTRY = "rec{client_id:int,tasks:list[any]}"
+SB_FIELDS = {
+    "Driver.logger": "any", "Driver.telemetry": "any", "Driver.challenge": "any", "Driver.allocations": "opt[list[list[any]]]", "Driver.number_of_steps": "int", "Driver.tasks_per_join_point": "any",
+    "Driver.config": "any", "Driver.load_driver_hosts": "any", "Driver.driver_actor": "any", "Driver.clients_per_worker": "dict[int,int]", "Driver.client_contexts": "dict[int,dict[int,obj[ClientContext]]]",
+    "Driver.default_sync_es_client": "any", "Driver.track": "any", "Driver.workers": "list[any]", "ClientAllocations.allocations": f"list[{CA_ENTRY}]", "ClientContext.api_key": "any",
+}
+MINE = ("len(a4.allocations) == len(clients) and forall(lambda j: implies(0 <= j and j < len(clients), a4.allocations[j]['client_id'] == clients[j] and "
+        "ref(a4.allocations[j]['tasks']) == ref(self.allocations[clients[j]])))")
+# the assignment lists are not the driver's own worker list (they are created by calculate_worker_assignments)
+DISTINCT = ("ref(worker_assignments) != ref(self.workers) and forall(lambda h: implies(0 <= h and h < len(worker_assignments), ref(worker_assignments[h]['workers']) != ref(self.workers) and "
+            "forall(lambda w: implies(0 <= w and w < len(worker_assignments[h]['workers']), ref(worker_assignments[h]['workers'][w]) != ref(self.workers)))))")
+MATRIX = "not isnone(self.allocations) and ref(self.allocations) == ref(ALLOC_MATRIX(allocator)) and len(self.allocations) == ALLOC_CLIENTS(allocator) and ref(self.workers) != ref(self.allocations) and INRANGE(worker_assignments, ALLOC_CLIENTS(allocator))"
+START_BENCHMARK = dict(
+    target="esrally/driver/driver.py::Driver.start_benchmark",
+    prop="C02",
+    self_type="obj[Driver]",
+    params={},
+    fields=SB_FIELDS,
+    externals={
+        "self.reset_relative_time": dict(returns="none"),
+        "self.telemetry.on_benchmark_start": dict(returns="none"),
+        # Allocator(schedule): its matrix has one row per client (Allocator.allocations / clients are under contract above)
+        "Allocator": dict(returns="any", ensures=["not isnone(result)"]),
+        "allocator.allocations": dict(attr=True, recv_arg=True, pure=True, uf="ALLOC_MATRIX", returns="list[list[any]]", ensures=["ref(result) != ref(self.workers)"]),
+        "allocator.join_points": dict(attr=True, returns="list[any]"),
+        "allocator.tasks_per_joinpoint": dict(attr=True, returns="any"),
+        "allocator.clients": dict(attr=True, recv_arg=True, pure=True, uf="ALLOC_CLIENTS", returns="int", ensures=["result == len(ALLOC_MATRIX(a0)) and result >= 1"]),
+        "self.config.opts": dict(returns="any"),
+        # calculate_worker_assignments (proved above): the client ids it hands to workers are ids of matrix rows
+        "calculate_worker_assignments": dict(
+            returns=WA,
+            ensures=["INRANGE(result, a1)", DISTINCT.replace("worker_assignments", "result")],
+        ),
+        "self.driver_actor.create_client": dict(returns="any", event="create_client"),
+        "ApiKey": dict(returns="any"),
+        "self.create_api_key": dict(returns="any"),
+        "self.driver_actor.start_worker": dict(event="start_worker"),
+        "self.update_progress_message": dict(returns="none"),
+    },
+    opaque={
+        "ALLOC_MATRIX": dict(names=["a"], args=["any"], ret="list[list[any]]"), "ALLOC_CLIENTS": dict(names=["a"], args=["any"], ret="int"),
+        # every client id handed to a worker is the index of a matrix row (what calculate_worker_assignments guarantees: its ranges tile [0, n))
+        "INRANGE": dict(names=["wa", "n"], args=[WA, "int"], ret="bool",
+                        body="forall(lambda h: implies(0 <= h and h < len(wa), forall(lambda w: implies(0 <= w and w < len(wa[h]['workers']), "
+                             "forall(lambda j: implies(0 <= j and j < len(wa[h]['workers'][w]), 0 <= wa[h]['workers'][w][j] and wa[h]['workers'][w][j] < n))))))"),
+    },
+    lemmas={
+        "InR": dict(vars={"wa": WA, "n": "int", "h": "int", "w": "int", "j": "int"},
+                    stmt="implies(INRANGE(wa, n) and 0 <= h and h < len(wa) and 0 <= w and w < len(wa[h]['workers']) and 0 <= j and j < len(wa[h]['workers'][w]), "
+                         "0 <= wa[h]['workers'][w][j] and wa[h]['workers'][w][j] < n)"),
+    },
+    use=[("", "InR", {"wa": "worker_assignments", "n": "ALLOC_CLIENTS(allocator)", "h": "_i0", "w": "_i1", "j": "_i2"})],
+    at_call={
+        # the allocations handed to a worker are exactly the matrix rows of the clients assigned to THAT worker -- no client twice, none missing
+        "self.driver_actor.start_worker": [MINE, "a1 == worker_id"],
+    },
+    locals={"worker_client_contexts": "dict[int,obj[ClientContext]]"},
+    modifies=["self", "self.clients_per_worker", "self.client_contexts", "self.workers"],
+    loops={
+        0: dict(modifies_objs=["self.clients_per_worker", "self.client_contexts", "self.workers"], inv=["worker_id >= 0", MATRIX, DISTINCT]),
+        1: dict(modifies_objs=["self.clients_per_worker", "self.client_contexts", "self.workers"], inv=["worker_id >= 0", MATRIX, DISTINCT]),
+        2: dict(modifies_objs=["self.clients_per_worker", "self.client_contexts", "client_allocations.allocations", "worker_client_contexts"],
+                inv=[MATRIX,
+                     "ref(client_allocations.allocations) == at('L2', ref(client_allocations.allocations))",
+                     "len(client_allocations.allocations) == _i",
+                     "forall(lambda j: implies(0 <= j and j < _i, client_allocations.allocations[j]['client_id'] == clients[j] and "
+                     "ref(client_allocations.allocations[j]['tasks']) == ref(self.allocations[clients[j]])))"]),
+    },
+    ensures=["True"],
+    cover=["return"],
+)
+ALLOC_CONTRACTS = [CLIENTS, ALLOCATIONS, TA_INIT, START_BENCHMARK]
